@@ -35,7 +35,7 @@ func envOf(v any) map[string]string {
 }
 
 // replayEval evaluates one case of a bounded evaluator model on the real
-// library: a stream of documents, or a two-layer chain.
+// library: a stream of documents, or a chain of layers.
 func replayEval(v *evalVector) (bool, map[string]any) {
 	env := envOf(v.Env)
 	var o real.Outcome
@@ -47,9 +47,11 @@ func replayEval(v *evalVector) (bool, map[string]any) {
 			if !o.OK {
 				return
 			}
-			o = s.MergeDocument("L1", []string{"L0"}, v.Docs[1])
-			if !o.OK {
-				return
+			for i := 1; i < len(v.Docs); i++ {
+				o = s.MergeDocument(fmt.Sprintf("L%d", i), []string{fmt.Sprintf("L%d", i-1)}, v.Docs[i])
+				if !o.OK {
+					return
+				}
 			}
 			o, outs = s.OutputDocuments()
 		})
